@@ -59,7 +59,7 @@ add('C15', 'exploration',
     'deterministic simulation: operation histories against a reference model, calendar clock seam with jump faults', 'DESIGN.md section 2 C15')
 
 add('C12', 'fault_enumeration',
-    'Partial claim (the part with a fault pattern in it): a recorder stores the attitude sequence of a turning body through a lossy link with loss (row -> NaN) and signflip (row -> -row) faults; every interior loss mask for records of up to 10 (quick) / 12 (thorough) rows x 4 spin rates x 5 sign-flip patterns is enumerated, plus seeded long records; the real QuaternionArray.slerp_nan / remove_jumps repair is compared with a reference shortest-arc constant-speed SLERP (1e-5 rad), valid rows must come back bit-identical up to sign, loss-free records pass through, and after remove_jumps no sign jump remains.',
+    'Partial claim (the part with a fault pattern in it): a recorder stores the attitude sequence of a turning body through a lossy link with loss (row -> NaN) and signflip (row -> -row) faults; every interior loss mask for records of up to 10 (quick) / 14 (thorough) rows x 4 spin rates x 5 sign-flip patterns is enumerated, plus seeded long records; the real QuaternionArray.slerp_nan / remove_jumps repair is compared with a reference shortest-arc constant-speed SLERP (1e-5 rad), valid rows must come back bit-identical up to sign, loss-free records pass through, and after remove_jumps no sign jump remains.',
     'Arbitrary endpoint pairs / weight vectors of the free slerp() function are input generation and not claimed (both package SLERPs are driven with the weights of each gap plus the end weights 0 and 1); the last row is never lost, leading lost rows are not judged; records may be loaded into an existing object through from_DCM and may be hit by a second burst of losses after the first repair; spin below pi rad per tick.',
     'deterministic simulation: enumerated loss/signflip fault masks on a recorder link, reference-model comparison', 'DESIGN.md section 2 C12')
 
